@@ -6,7 +6,8 @@ TECH = 'bounded symbolic execution of the compiled templates (clang-14 IR -> C -
 NOTE = ('Trusted base: clang-14 -O1 code generation, tools/ir2c.py (validated natively against the g++ build on every run), cbmc and its '
         'back ends, the environment models in rt/, the reference models in props/<id>/. Bounds per obligation are in the evidence file.')
 
-CLAIMED = {
+CLAIMED = {}   # filled from the CLAIM strings of props/<id>/prop.py; the two below predate that convention
+CLAIMED0 = {
     'C16': ('every span constructor, first/last/subspan (static and dynamic), element access and iteration on exact-size heap parents of 0..6 (thorough 0..12) ints with full 64-bit symbolic offsets/counts/indices, in the three contract modes (off / throwing / terminate)', '2 C16'),
     'C15': ('all value pairs of 169 ordered integer type pairs, all six functions vs __int128 comparison; no value bound', '2 C15'),
 }
@@ -18,6 +19,14 @@ PENDING = 'not claimed yet: the solver-based check for this property is still be
 
 
 def main():
+    import re, glob
+    CLAIMED.update(CLAIMED0)
+    for pp in sorted(glob.glob(os.path.join(ROOT, 'props', '*', 'prop.py'))):
+        pid = os.path.basename(os.path.dirname(pp)); txt = open(pp).read()
+        m = re.search(r"^CLAIM = (.+?)$", txt, re.M | re.S)
+        if m and re.search(r"^CLAIM = ", txt, re.M):
+            ns = {}; exec(re.search(r"^CLAIM = .*?(?=^\S)", txt, re.M | re.S).group(0), ns)
+            CLAIMED[pid] = (ns['CLAIM'], '2 ' + pid)
     ids = [json.loads(l)['id'] for l in open(os.path.join(ROOT, 'properties.jsonl'))]
     checks = []
     for i in ids:
